@@ -29,10 +29,10 @@ THEOREMS = [
     "PV.C20.template_regressions",
     "PV.C20.doubled_braces",
     "PV.C20.fieldname_eq_partial",
+    "PV.C20.fieldname_eq_ascii",
+    "PV.C20.fieldname_overflow_repaired",
     "PV.C20.fieldname_fails",
-    "PV.C20.fieldname_overflow_differs",
     "PV.C20.fieldname_unicode_digit_differs",
-    "PV.C20.fieldname_plus_differs",
 ]
 TRUSTED = [
     "Lean 4.33.0 kernel; axioms limited to propext, Classical.choice, Quot.sound",
@@ -40,7 +40,7 @@ TRUSTED = [
     "parse_literal, parse_spec [one-pass, /repo commit eebce66], FromTemplate::from_str, FieldName::parse, "
     "FieldNamePart::parse_part), tied to the code by the correspondence streams of this run "
     "(exhaustive over a 10-symbol alphabet to length 5/6, plus random)",
-    "contract of str::parse::<usize>() (optional '+', ASCII digits, error on overflow above 2^64-1), "
+    "contract of char::to_digit(10) (ASCII digits only) and usize::checked_mul/checked_add, "
     "str::Chars::as_str / slicing by consumed length, char_indices and Itertools::peeking_take_while as modelled",
     "lean/PV/C20/Spec.lean as the meaning of CPython's MarkupIterator_next/parse_field/field_name_split/"
     "FieldNameIterator_next/get_integer: validated on every run against python3 (CPython 3.11.7) "
@@ -51,9 +51,11 @@ TRUSTED = [
 ]
 PARTIAL = [
     "template splitting: nothing missing (template_eq holds for every template since /repo commit eebce66).",
-    "fieldname_full is false (fieldname_fails). fieldname_eq_partial needs: no '+', no non-ASCII decimal digit, "
-    "ASCII digit runs of value <= 2^63-1 (Rust usize::from_str vs CPython get_integer); the two in-alphabet "
-    "deviations are listed known findings.",
+    "fieldname_full is false (fieldname_fails) only through non-ASCII decimal digits: fieldname_eq_partial holds for "
+    "every field name without such a character (fieldname_eq_ascii: every ASCII field name); since the fix of "
+    "fname-index-overflow the integer reader is CPython's get_integer on ASCII digits ('+' is no digit, too many "
+    "digits are rejected left to right). The remaining deviation (a Unicode decimal digit is a number for CPython) "
+    "is the listed known finding fname-unicode-digit.",
 ]
 READY = True
 TECHNIQUE = ("Lean 4 theorems relating a hand-written model of the Rust scanners to an independent Lean "
@@ -64,8 +66,8 @@ LEVEL_TEXT = ("Machine-checked Lean 4 theorems for templates and field names of 
               "formatter_parser (literal pieces with doubled braces unescaped; field name, conversion, spec with "
               "nested braces verbatim) and rejects exactly the same templates (template_eq, no domain restriction); "
               "doubled braces round-trip for every text; on the decidable domain fieldNameInDomain the modelled "
-              "FieldName::parse returns CPython's head and accessor chain, and the three integer-reading "
-              "deviations outside it are proved by concrete witnesses. The model is tied to the Rust code by "
+              "FieldName::parse returns CPython's head and accessor chain (the domain excludes only non-ASCII decimal "
+              "digits, the one remaining deviation, proved by a concrete witness). The model is tied to the Rust code by "
               "exhaustive small-scope plus random correspondence on every run; the real code is additionally "
               "judged directly by CPython, and the Lean spec is re-validated against CPython.")
 LEVEL_NOTE = ("Trusted: Lean kernel, fidelity of the hand-written model as sampled by correspondence (all strings "
@@ -155,25 +157,15 @@ def dec_table(s):
 # ------------------------------------------------------------------ field-name domain (copy of Domain.lean)
 
 def fname_hazard(s):
-    """None if the field name is in the domain of fieldname_eq_partial, else the hazard name."""
-    run = 0
-    out = None
+    """None if the field name is in the domain of fieldname_eq_partial, else the hazard name
+    (since the fix of fname-index-overflow: only non-ASCII decimal digits)."""
     for c in s:
-        if c == "+":
-            return "plus"
         if ord(c) > 127 and unicodedata.decimal(c, None) is not None:
             return "unicode-digit"
-        if "0" <= c <= "9":
-            run = run * 10 + ord(c) - 48
-            if run > 2**63 - 1:
-                out = out or "overflow"
-        else:
-            run = 0
-    return out
+    return None
 
 
 KEYS = {
-    "overflow": "fname-index-overflow",
     "unicode-digit": "fname-unicode-digit",
 }
 
@@ -211,7 +203,7 @@ def classify(req, impl_out, model_out, failure):
     op, s = _text(req)
     if op == "fname":
         h = fname_hazard(s)
-        return KEYS.get(h)          # 'plus' has no key: outside the property's alphabet, never generated
+        return KEYS.get(h)
     return None
 
 
@@ -304,11 +296,15 @@ def _mutate(rng, s, alpha):
 # deterministic probes: one per listed finding (first, so that the KNOWN-FINDING line is printed on every
 # run), then the templates repaired by /repo commit eebce66 (regression), then past / suspected problem inputs
 FINDING_PROBES = [
-    "fname " + hexs("9223372036854775808"),      # overflow: index 2^63 / CPython raises
-    "fname " + hexs("a[99999999999999999999]"),  # overflow: string index / CPython raises
     "fname " + hexs("٣"),              # unicode digit
     "fname " + hexs("a[٣٤]"),
 ]
+# fname-index-overflow, repaired in /repo by 7cb5b4b: ordinary requests (a recurrence is a VIOLATION)
+OVERFLOW_REGRESSION = ["9223372036854775808", "a[99999999999999999999]", "9223372036854775807", "a[9223372036854775807]",
+                       "a[9223372036854775808]", "18446744073709551615", "18446744073709551616", "99999999999999999999x",
+                       "a[99999999999999999999x]", "a[9223372036854775808].b", "9223372036854775808.b[0]",
+                       "0009223372036854775807", "00000000000000000000009223372036854775808", "a[1][99999999999999999999]",
+                       "+5", "a[+5]", "+", "a[+]", "-5", "5+", "1e3", "a[0x10]", "12_3", " 1", "1 ", "a[ 1]"]
 REGRESSIONS = ["{a[}", "{a[}]}", "{a[!]}", "{[{]}", "{a{b}c}", "{!}}", "{x!:}", "{![:]}", "{!{:}}", "{:{{}}}",
                "{:{a{b}}}", "{:[<5}", "{a:[b}", "{:{[}}", "{0[}]!r:[{[}]}"]
 CORPUS_TMPL = ["", "a", "{}", "{{", "}}", "{", "}", "{{}", "{}}", "{{}}", "{{{key}}}ddfe", "abcd{1}:{key}",
@@ -323,10 +319,11 @@ CORPUS_FNAME = ["", "0", "key", "key.attr[0][string]", "key..", "key[]", "key[",
 
 def streams(ctx):
     out = []
-    reqs = list(FINDING_PROBES) + ["tmpl " + hexs(s) for s in REGRESSIONS]
+    reqs = list(FINDING_PROBES) + ["fname " + hexs(s) for s in OVERFLOW_REGRESSION] + ["tmpl " + hexs(s) for s in REGRESSIONS]
     reqs += ["tmpl " + hexs(s) for s in CORPUS_TMPL] + ["fname " + hexs(s) for s in CORPUS_FNAME]
     out.append(Stream("corpus", reqs, kind="corpus",
-                      note="one deterministic probe per listed finding, the templates repaired by eebce66, the Rust "
+                      note="one deterministic probe per listed finding, the field names of the repaired integer overflow "
+                           "finding (limits 2^63-1 / 2^63, overflow before a non-digit, '+'), the templates repaired by eebce66, the Rust "
                            "unit-test inputs, adjacency cases"))
 
     L = 5 if ctx.quick else 6
@@ -350,7 +347,8 @@ def streams(ctx):
                       nontrivial=nt))
 
     rng = ctx.rng("malformed")
-    alpha = ALPHABET + ["r", "1", "9", " ", "_", "日", "-", "<"]
+    alpha = ALPHABET + ["r", "1", "9", " ", "_", "日", "-", "<", "+", "9223372036854775807", "9223372036854775808",
+                        "999999999999999999", "18446744073709551616"]
     reqs = []
     for _ in range(n):
         if rng.random() < 0.5:
